@@ -225,12 +225,33 @@ impl<'a, 'tcx> Cx<'a, 'tcx> {
                     _,
                 )) = val
                 {
-                    // pointer to a static?
-                    let alloc_id = ptr.provenance.alloc_id();
-                    if let Some(rustc_middle::mir::interpret::GlobalAlloc::Static(sdid)) =
-                        self.tcx.try_get_global_alloc(alloc_id)
-                    {
-                        let _ = write!(o, ",\"static\":{}", esc(&dp(self.tcx, sdid)));
+                    // pointer to a static, or to a byte-array literal (format_args! templates)
+                    let (prov, offset) = ptr.into_raw_parts();
+                    let alloc_id = prov.alloc_id();
+                    match self.tcx.try_get_global_alloc(alloc_id) {
+                        Some(rustc_middle::mir::interpret::GlobalAlloc::Static(sdid)) => {
+                            let _ = write!(o, ",\"static\":{}", esc(&dp(self.tcx, sdid)));
+                        }
+                        Some(rustc_middle::mir::interpret::GlobalAlloc::Memory(mem)) => {
+                            if let ty::Ref(_, inner, _) = vty.kind() {
+                                if let ty::Array(elem, _) = inner.kind() {
+                                    if matches!(elem.kind(), ty::Uint(ty::UintTy::U8)) {
+                                        let a = mem.inner();
+                                        let start = offset.bytes() as usize;
+                                        let len = a.len();
+                                        if start <= len && a.provenance().ptrs().is_empty() {
+                                            let bytes = a.inspect_with_uninit_and_ptr_outside_interpreter(start..len);
+                                            let mut hex = String::new();
+                                            for b in bytes {
+                                                let _ = write!(hex, "{:02x}", b);
+                                            }
+                                            let _ = write!(o, ",\"bytes\":{}", esc(&hex));
+                                        }
+                                    }
+                                }
+                            }
+                        }
+                        _ => {}
                     }
                 }
             }
